@@ -1,6 +1,7 @@
 (* C04  Channel: exactly-once in-order delivery, then exactly one Closed. *)
 From CV Require Import Base Consts ConcChannel.
 From CVP Require Import ConcChannel_proofs.
+From CVP Require Import C04_quiet.
 Open Scope N_scope.
 
 (* For channel() and sync_channel(n >= 1) used through send / try_send / the blocking SyncSender::send, ANY number of sender threads with ANY well-formed
@@ -33,3 +34,17 @@ Example C04_blocking_nonvacuous :
   let s := cc_run (Some 1) [[CSend 7; CSendB 8]] 4 ([1; 1; 1; 1] ++ [0; 0; 0; 0] ++ [1; 1] ++ repeat 0 8)%nat in
   cdelivered s = [7; 8] /\ cq s = [] /\ csent s = [7; 8].
 Proof. vm_compute. repeat split. Qed.
+
+(* Nothing is left behind: in every reachable state in which no wake-up is on its way any more (eventfd not readable, no sender
+   between its enqueue and its ping, loop not inside a drain) - or the source is gone - everything that was sent has been delivered, in
+   order, and if no sender is left the one Closed has been delivered and the source removed. With C04_invariant ("a non-empty queue
+   always has a wake-up on its way") this is the no-loss half of exactly-once for whole schedules. *)
+Theorem C04_quiescent_means_all_delivered : forall b progs nd sched, progs <> [] -> Forall (fun p => wf_cprog 1 p = true) progs ->
+  cc_quiet (cc_run b progs nd sched) ->
+  let s := cc_run b progs nd sched in
+  cdelivered s = csent s /\ cq s = [] /\ (csenders s = 0 -> cclosed s = 1 /\ creg s = false).
+Proof. exact quiescent_run_delivered_everything. Qed.
+Example C04_quiet_nonvacuous :
+  let s := cc_run None [[CSend 7; CSend 8]] 3 [1; 1; 1; 0; 0; 0; 1; 1; 1; 0; 0; 0; 0; 0; 0; 0]%nat in cc_quiet s /\ creg s = true /\ cdelivered s = [7; 8].
+Proof. exact quiet_somewhere_open. Qed.
+Print Assumptions C04_quiescent_means_all_delivered.
